@@ -1344,8 +1344,8 @@ fn gen_sess(rng: &mut Rng, racing: bool, sorted: bool) -> SessCase {
                 kinds.push(true);
                 ops.push(SOp::New { settle, is_stream: true, binary: true, fs: gen_filters(rng), start, end });
             }
-            4 => ops.push(SOp::Search { k: rng.below(kinds.len() as u64) as usize, start: rng.below(n + 2), maxr: *rng.pick(&[0u64, 1, 1, 2, 3, 100]), fs: gen_filters(rng) }),
-            5 | 6 => ops.push(SOp::Pages { k: rng.below(kinds.len() as u64) as usize, start: if racing { n.saturating_sub(1 + rng.below(1500)) } else { rng.below(n / 2 + 1) }, maxr: if racing { 40 + rng.below(100) } else { *rng.pick(&[1u64, 1, 2, 3, 5]) }, fs: gen_filters(rng) }),
+            4 => ops.push(SOp::Search { k: rng.below(kinds.len() as u64) as usize, start: if racing { n.saturating_sub(rng.below(400)) } else { rng.below(n + 2) }, maxr: *rng.pick(&[0u64, 1, 1, 2, 3, 100]), fs: gen_filters(rng) }),
+            5 | 6 => ops.push(SOp::Pages { k: rng.below(kinds.len() as u64) as usize, start: if racing { n.saturating_sub(1 + rng.below(400)) } else { rng.below(n / 2 + 1) }, maxr: if racing { 40 + rng.below(100) } else { *rng.pick(&[1u64, 1, 2, 3, 5]) }, fs: gen_filters(rng) }),
             7 => ops.push(SOp::LookIdx { k: rng.below(kinds.len() as u64) as usize, idx: rng.below(n + 2) }),
             8 => ops.push(SOp::LookTime { k: rng.below(kinds.len() as u64) as usize, t_ms: BASE_US / 1000 + rng.below(max_ts / 10 + 3) }),
             _ => {
